@@ -38,6 +38,46 @@ def ref(chromsizes, binsize):
     return table
 '''
 
+# the same table built by an explicit loop instead of a nested helper mapped over the chromosomes (accepted alternative
+# skeleton, section 3.1 of DESIGN.md: the per-chromosome arithmetic and the order of concatenation are the same obligations)
+REF_BINNIFY_LOOP = '''
+def ref(chromsizes, binsize):
+    frames = []
+    for chrom in chromsizes.keys():
+        clen = chromsizes[chrom]
+        n_bins = int(np.ceil(clen / binsize))
+        edges = np.arange(0, (n_bins + 1)) * binsize
+        edges[-1] = clen
+        frames.append(pd.DataFrame({"chrom": [chrom] * n_bins, "start": edges[:-1], "end": edges[1:]},
+                                   columns=["chrom", "start", "end"]))
+    table = pd.concat(frames, axis=0, ignore_index=True)
+    table["chrom"] = pd.Categorical(table["chrom"], categories=list(chromsizes.index), ordered=True)
+    return table
+'''
+
+
+def compare_binnify(ctx, rule):
+    """binnify against its reference; when the nested per-chromosome helper is gone, against the loop skeleton."""
+    fa = ctx.fa(f'{U}.binnify')
+    if '_each' in fa.nested or any(k.split('#')[0] for k in fa.nested):
+        ref = analyze_source(ctx.repo, U, REF_BINNIFY)
+        compare(ctx, rule, fa, None, ref_fa=ref, why='per-chromosome tables concatenated in the given order; chrom is an ordered categorical in that order')
+        compare(ctx, rule + '._each', ctx.fa(f'{U}.binnify.<locals>._each'), None, ref_fa=ref.nested_analyses['_each'],
+                why='ceil(len / width) bins; edges k*width, last edge replaced by the chromosome length; start = edges[:-1], end = edges[1:]')
+        return
+    mark = len(ctx.obligations)
+    compare(ctx, rule, fa, REF_BINNIFY_LOOP, module=U,
+            why='per-chromosome tables (ceil(len / width) bins, last edge = chromosome length) built in a loop and concatenated in the '
+                'given order; chrom is an ordered categorical in that order')
+    if all(ob['status'] == 'discharged' for ob in ctx.obligations[mark:]):
+        return
+    del ctx.obligations[mark:]
+    ref = analyze_source(ctx.repo, U, REF_BINNIFY)
+    compare(ctx, rule, fa, None, ref_fa=ref, why='per-chromosome tables concatenated in the given order; chrom is an ordered categorical in that order')
+    compare(ctx, rule + '._each', ctx.fa(f'{U}.binnify.<locals>._each'), None, ref_fa=ref.nested_analyses['_each'],
+            why='ceil(len / width) bins; edges k*width, last edge replaced by the chromosome length; start = edges[:-1], end = edges[1:]')
+
+
 REF_CHROMSIZES = '''
 def ref(bins):
     tab = (bins.drop_duplicates(["chrom"], keep="last")[["chrom", "end"]].reset_index(drop=True)
@@ -109,11 +149,7 @@ def ref(filepath_or, name_patterns=(r"^chr[0-9]+$", r"^chr[XY]$", r"^chrM$"), al
 
 
 def run(ctx):
-    fa = ctx.fa(f'{U}.binnify')
-    ref = analyze_source(ctx.repo, U, REF_BINNIFY)
-    compare(ctx, 'C20.binnify', fa, None, ref_fa=ref, why='per-chromosome tables concatenated in the given order; chrom is an ordered categorical in that order')
-    compare(ctx, 'C20.binnify._each', ctx.fa(f'{U}.binnify.<locals>._each'), None, ref_fa=ref.nested_analyses['_each'],
-            why='ceil(len / width) bins; edges k*width, last edge replaced by the chromosome length; start = edges[:-1], end = edges[1:]')
+    compare_binnify(ctx, 'C20.binnify')
     alias = ctx.repo.resolve(f'{U}.make_bintable')
     ctx.check(alias == f'{U}.binnify', 'C20.alias', 'make_bintable', found=alias, expected=f'{U}.binnify')
     common.get_binsize_all_bins(ctx)
